@@ -102,6 +102,30 @@ var props = map[string]propSpec{
 		Rule: "a run counts when >=20 updates were applied on >=2 nodes and >=1 leader change, restore or restart happened; distinct by schedule hash"},
 	"C04": {ID: "C04", Engine: "raft", Profiles: []profShare{{"repl", 4}, {"elect", 4}, {"crash", 2}},
 		Rule: "a run counts when >=1 conflict truncation happened or >=1 append request from a lower term was delivered; distinct by schedule hash"},
+	"C05": {ID: "C05", Engine: "raft", Profiles: []profShare{{"elect", 6}, {"crash", 4}},
+		Rule: "a run counts when a voter handled vote requests in a term with >=2 candidates, or handled a vote request after restarting in that term; distinct by schedule hash"},
+	"C06": {ID: "C06", Engine: "raft", Profiles: []profShare{{"member", 6}, {"crash", 2}, {"repl", 2}},
+		Rule: "a run counts when the durability oracle was evaluated at >=1 commit under a configuration whose voter count differs from the initial one, or while a non-voter held the entry; distinct by schedule hash"},
+	"C07": {ID: "C07", Engine: "raft", Profiles: []profShare{{"repl", 5}, {"elect", 3}, {"transfer", 2}},
+		Rule: "a run counts when it completed (history checked) with >=30 finished operations, >=1 ambiguous outcome and >=1 leader change; distinct by schedule hash"},
+	"C08": {ID: "C08", Engine: "raft", Profiles: []profShare{{"member", 1}},
+		Rule: "a run counts when >=2 configuration entries were compared with their predecessor and >=1 leader change or crash happened; distinct by schedule hash"},
+	"C09": {ID: "C09", Engine: "raft", Profiles: []profShare{{"snap", 1}},
+		Rule: "a run counts when >=1 snapshot was published, >=1 compaction removed a segment and >=1 snapshot was installed or restored from; distinct by schedule hash"},
+	"C10": {ID: "C10", Engine: "raft", Profiles: []profShare{{"crash", 6}, {"snap", 4}},
+		Rule: "a run counts when >=1 crash landed at an I/O boundary of the victim and that node was restarted; distinct by schedule hash"},
+	"C11": {ID: "C11", Engine: "raft", Profiles: []profShare{{"member", 7}, {"transfer", 3}},
+		Rule: "a run counts when >=1 promotion, demotion or removal was carried out (configuration entry stored) and a timeout-now or election event reached a node; distinct by schedule hash"},
+	"C12": {ID: "C12", Engine: "raft", Profiles: []profShare{{"snapmember", 1}},
+		Rule: "a run counts when >=1 snapshot was published on a node after >=2 configuration entries were stored; distinct by schedule hash"},
+	"C15": {ID: "C15", Engine: "raft", Profiles: []profShare{{"mix", 1}}, Race: true,
+		Rule: "a run counts when >=3 kinds of admin activity (snapshot, transfer, membership, restart) overlapped client load; distinct by schedule hash"},
+	"C16": {ID: "C16", Engine: "raft", Profiles: []profShare{{"transfer", 1}},
+		Rule: "a run counts when >=1 transfer request was accepted by a leader (not rejected by validation); distinct by schedule hash"},
+	"C17": {ID: "C17", Engine: "raft", Profiles: []profShare{{"mix", 3}, {"crash", 2}, {"member", 2}, {"snap", 2}, {"elect", 1}},
+		Rule: "a run counts when >=3 fault events happened before the heal and the cluster then had to settle (liveness evaluated) or the stability clause was evaluated; distinct by schedule hash"},
+	"C19": {ID: "C19", Engine: "raft", Profiles: []profShare{{"mix", 5}, {"snap", 5}},
+		Rule: "a run counts when >=20 status reports were checked, a role change was seen between reports and >=1 snapshot install, truncation or configuration revert happened; distinct by schedule hash"},
 }
 
 func fatal2(format string, a ...interface{}) {
